@@ -196,6 +196,10 @@ class InlineTranslator:
                 return atom
             # replace headrule body aggregate with inlined version of the conditions
             new_elements = self.compute_new_body_elements(rule, replace_cond, replace_elem, agg, atom, unique_vars)
+            # the unfolded elements bring their own tuples: these must not coincide with the other elements either
+            if any(potentially_unifying_sequence(x.terms, n.terms) for x in rest_elems for n in new_elements):
+                log.info(f"Cannot inline {str(hpred)} into {str(atom)} as the unfolded tuples are not unique.")
+                return atom
             return atom.update(function=result_function, elements=rest_elems + new_elements)
         return atom
 
